@@ -201,6 +201,10 @@ def install_externals(reg):
     def b_setattr(ex, p, pos, kw, node):
         obj, name, v = pos
         name = z3.simplify(name)
+        if isinstance(obj, PyObj) and not z3.is_string_value(name):
+            # the attribute NAME is data: any attribute of the object (methods included) may be overwritten
+            p.effects.append(("store-attr-dynamic", obj.oid, to_val(pos[1]), v, p.heap[obj.oid]["origin"]))
+            return [(p, NONE)]
         if not (isinstance(obj, PyObj) and z3.is_string_value(name)):
             raise OutOfSubset("setattr with non-constant name")
         attr = name.as_string()
@@ -217,6 +221,11 @@ def install_externals(reg):
         # with a default the call is total; the attribute (if present) wins
         return [(p, ex.load_attr(p, obj, attr))]
     E["builtins.getattr"] = b_getattr
+
+    def b_globals(ex, p, pos, kw, node):
+        p.effects.append(("global-object-read", "globals()", node.lineno))
+        return [(p, z3.Const("module-globals", Val))]
+    E["builtins.globals"] = b_globals
 
     def b_super(ex, p, pos, kw, node):
         return [(p, p.new_obj("builtins.super", origin="fresh"))]
@@ -258,7 +267,19 @@ def install_externals(reg):
                 res.append((pn, NONE))
             return res
         if not isinstance(glb, PyNoneT) or not isinstance(loc, PyDict):
-            raise OutOfSubset("exec() with globals given or without a locals dict")
+            # exec into something that is not a dict allocated in this call (module globals(), an attribute of the instance...)
+            target = glb if not isinstance(glb, PyNoneT) else loc
+            res = []
+            pr, pn = ex.split(p, mayraise("exec", code))
+            if pr is not None:
+                res.append((pr, Raise("ExecException", "exec() raised")))
+            if pn is not None:
+                pn.effects.append(("exec-into-shared-namespace", to_val(target) if not isinstance(target, PyNoneT) else NONEVAL))
+                pn.effects.append(("call", "exec", [to_val(code)]))
+                if isinstance(target, PyDict):
+                    pn.heap[target.oid]["attrs"]["contents"] = uf("EXEC_SHARED", code, pn.heap[target.oid]["attrs"]["contents"])
+                res.append((pn, NONE))
+            return res
         if p.heap[loc.oid]["origin"] != "fresh":
             obl(p, "frame.exec-into-fresh-dict", z3.BoolVal(False), node)
         res = []
@@ -375,6 +396,9 @@ def install_externals(reg):
     # ------------------------------------------------------------------ hashlib
     def make_hash(name, hexfn, hexlen):
         def ctor(ex, p, pos, kw, node):
+            if len(pos) == 1 and z3.is_expr(pos[0]) and pos[0].sort() == Val:
+                # bytes produced by an unmodelled function: an opaque byte string
+                return [(p, p.new_obj("hashlib." + name, attrs={"data": z3.Function("val2bytes", Val, Bytes)(pos[0])}))]
             if len(pos) != 1 or not (z3.is_expr(pos[0]) and pos[0].sort() == Bytes):
                 if len(pos) == 1 and z3.is_expr(pos[0]) and pos[0].sort() == S:
                     return [(p, Raise("TypeError", "hashing a str (must be encoded), line %d" % node.lineno))]
